@@ -30,8 +30,8 @@ EVIDENCE = os.environ.get("Y0SIM_EVIDENCE_DIR") or os.path.join(VERIF, "evidence
 
 TIERS = {
     # per property: scenarios per group and waves; group = 4 workers running the same scenario ids
-    "quick": {"C14": (1200, 1), "C02": (330, 1), "C11": (3500, 1), "C04": (540, 1), "wall": 200, "min_runs": 300, "max_sigs": 4},
-    "thorough": {"C14": (3600, 6), "C02": (1400, 6), "C11": (20000, 6), "C04": (2100, 6), "wall": 3000, "min_runs": 400, "max_sigs": 8},
+    "quick": {"C14": (1200, 1), "C02": (330, 1), "C11": (3500, 1), "C04": (540, 1), "wall": 200, "min_runs": 300, "max_sigs": 4, "min_wall": 240},
+    "thorough": {"C14": (3600, 6), "C02": (1400, 6), "C11": (20000, 6), "C04": (2100, 6), "wall": 3000, "min_runs": 400, "max_sigs": 8, "min_wall": 1800},
 }
 GROUP = 4
 
@@ -191,22 +191,26 @@ def report(prop: str, tier: str, seed: int, scratch: str, known: list[dict], vio
         bysig.setdefault(v["v"]["sig"], []).append(v)
     out = {"exit": 0, "violations": 0, "known_hits": {}, "sigs": {}, "replays": []}
     n = 0
+    t_min = time.time()
     for sig, items in sorted(bysig.items()):
         out["sigs"][sig] = len(items)
         items.sort(key=lambda x: (x["s"], x["w"]))
         rep = items[0]
-        if n >= cfg["max_sigs"]:
-            k = match_open(known, prop, sig)
-            if k:
-                out["known_hits"][sig] = len(items)
-                print(f"KNOWN-FINDING: property={prop} {k['what']} [signature {sig}; {len(items)} hits]")
-            else:
-                path = write_replay(prop, seed, rep, sig, None, None)
-                print(f"VIOLATION property={prop} replay={path}")
-                print(f"  signature={sig} hits={len(items)} (not minimised: signature budget exhausted)")
-                out["exit"] = 1
-                out["violations"] += 1
-                out["replays"].append(path)
+        k = match_open(known, prop, sig)
+        if k:
+            out["known_hits"][sig] = len(items)
+            print(f"KNOWN-FINDING: property={prop} {k['what']} [signature {sig}; {len(items)} hits]", flush=True)
+            continue
+        # the violation is reported at once, with the replay file as recorded; minimisation then replaces the file
+        # in place, so whoever stops this process early still has the VIOLATION line and a file that replays
+        path = write_replay(prop, seed, rep, sig, None, None)
+        print(f"VIOLATION property={prop} replay={path}", flush=True)
+        out["exit"] = 1
+        out["violations"] += 1
+        out["replays"].append(path)
+        if n >= cfg["max_sigs"] or time.time() - t_min > cfg.get("min_wall", 1e9):
+            why = "signature budget exhausted" if n >= cfg["max_sigs"] else "minimisation time budget exhausted"
+            print(f"  signature={sig} hits={len(items)} (not minimised: {why})", flush=True)
             continue
         n += 1
         small, info = minimise_case(rep["case"], sig, scratch, cfg["min_runs"])
@@ -217,20 +221,10 @@ def report(prop: str, tier: str, seed: int, scratch: str, known: list[dict], vio
                 rep["prefix"] = prefix
                 info["history_needed"] = True
                 info["prefix_len"] = len(prefix["ids"])
-        final_sig = sig
-        k = match_open(known, prop, final_sig)
-        if k:
-            out["known_hits"][sig] = len(items)
-            print(f"KNOWN-FINDING: property={prop} {k['what']} [signature {sig}; {len(items)} hits]")
-            continue
-        path = write_replay(prop, seed, rep, sig, small, info)
-        print(f"VIOLATION property={prop} replay={path}")
+        write_replay(prop, seed, rep, sig, small, info)
         print(f"  signature={sig} hits={len(items)} scenario={rep['s']} worker={rep['w']} "
-              f"minimised_in={info.get('runs')} runs interleaving_needed={info.get('interleaving_needed')}")
-        print("  " + summarise(small if small else rep["case"], sig))
-        out["exit"] = 1
-        out["violations"] += 1
-        out["replays"].append(path)
+              f"minimised_in={info.get('runs')} runs interleaving_needed={info.get('interleaving_needed')}", flush=True)
+        print("  " + summarise(small if small else rep["case"], sig), flush=True)
     if xviol:
         import pairs
 
